@@ -89,6 +89,10 @@ SENSITIVITY = {
     "r14b": ("seeded/r14b/patch.diff", "C17", ["result-mismatch", "entry-point-mismatch"], "A: last-segment hint validated with a truncating integer quotient (i64 slots, knot spacing > 1)"),
     "r14c": ("seeded/r14c/patch.diff", "C18", ["build-invariant", "build-invoked-on-invalid-input"], "A: builder decision table with setter orders (.x(bad).y(bad).x(good))"),
     "r14d": ("seeded/r14d/patch.diff", "C18", ["build-invariant", "build-invoked-on-invalid-input"], "A: default axis of an element type whose usize conversion is inexact (low-precision newtype)"),
+    "r15a": ("seeded/r15a/patch.diff", "C17", ["result-mismatch", "entry-point-mismatch"], "A: volume scenario - a u16 batch tag wraps after 65 536 batches on one interpolator"),
+    "r15b": ("seeded/r15b/patch.diff", "C17", ["result-mismatch"], "C: 128-slot OnceLock memo for axes >= 64 knots; get() then get_or_init() without re-checking the key"),
+    "r15c": ("seeded/r15c/patch.diff", "C18", ["build-invariant", "build-invoked-on-invalid-input"], "A: builder decision table with a tie made of -0.0 and +0.0"),
+    "r15d": ("seeded/r15d/patch.diff", "C18", ["query-element-not-delivered", "error-swallowed", "wrong-target", "concurrent-operation-affected"], "A: a nested (re-entrant) call whose strategy invocation fails raises a thread-local stop flag that ends the outer batch"),
     "M16": ("mutants/M16.diff", "C17", ["answers-differ-between-processes", "process-history-dependence"], "A: evaluation order picked once per process from the hasher's random seed"),
 }
 # seeded/r7d is kept but not listed: its author reads C18 as forbidding one-point axes for strategies
